@@ -122,8 +122,30 @@ def rule_m2(ctx):
         raise AnalysisError(f"{FN}: recursive call for length - 1 not found")
     options = [p for p in f.params
                if p not in ("self", "automaton", "length", "state")]
+    from ..norm import single_defs
+    defs = single_defs(f.node)
     for c in rec:
         kws = {k.arg: dotted(k.value) for k in c.keywords if k.arg}
+        opaque = False
+        for k in c.keywords:
+            if k.arg is None:
+                v = k.value
+                if isinstance(v, ast.Name) and v.id in defs:
+                    v = defs[v.id]
+                if isinstance(v, ast.Dict) and all(
+                        isinstance(x, ast.Constant) for x in v.keys):
+                    for kk, vv in zip(v.keys, v.values):
+                        kws[kk.value] = dotted(vv)
+                elif isinstance(v, ast.Call) and dotted(v.func) == "dict":
+                    for kk in v.keywords:
+                        kws[kk.arg] = dotted(kk.value)
+                else:
+                    opaque = True
+        if opaque:
+            r.note("M2", loc(f, c), dotted(c)[:100],
+                   "options are forwarded through an opaque ** mapping; "
+                   "not judged")
+            continue
         pos = f.params[1:]
         for i, a in enumerate(c.args):
             if i < len(pos):
@@ -184,38 +206,55 @@ def rule_m3(ctx):
     word_side = {}
     mat_side = {}
     sites = {}
+    parents = f.module.parents
+
+    def polarity(node):
+        """value of as_start under which `node` is evaluated, or None"""
+        cur = node
+        while cur is not f.node:
+            par = parents[cur]
+            if isinstance(par, (ast.If, ast.IfExp)):
+                t = eval_test(par.test, {"as_start": True})
+                t2 = eval_test(par.test, {"as_start": False})
+                if t is not None and t2 is not None and t != t2:
+                    body = par.body if isinstance(par.body, list) else [par.body]
+                    orelse = par.orelse if isinstance(par.orelse, list) \
+                        else [par.orelse]
+                    if any(cur is x for x in body):
+                        return True if t else False
+                    if any(cur is x for x in orelse):
+                        return False if t else True
+            cur = par
+        return None
+
+    def stmt_of(n):
+        while not isinstance(n, ast.stmt):
+            n = parents[n]
+        return n
     for n in ast.walk(f.node):
-        if not isinstance(n, ast.If):
-            continue
-        t = eval_test(n.test, {"as_start": True})
-        t2 = eval_test(n.test, {"as_start": False})
-        if t is None or t2 is None or t == t2:
-            continue
-        for pol, arm in ((t, n.body), (t2, n.orelse)):
-            # pol is the truth of the test when as_start is True/False
-            as_start_val = True if arm is n.body and t else (
-                False if arm is n.body else (False if t else True))
-            for s in arm:
-                if not isinstance(s, ast.Assign):
-                    continue
-                v = s.value
-                if isinstance(v, ast.ListComp) and isinstance(v.elt, ast.BinOp) \
-                        and isinstance(v.elt.op, ast.Add):
-                    L, R = dotted(v.elt.left), dotted(v.elt.right)
-                    lv = dotted(v.generators[0].target)
-                    if R == lv:
-                        word_side[as_start_val] = ("prepend", L)
-                    elif L == lv:
-                        word_side[as_start_val] = ("append", R)
-                    sites[("w", as_start_val)] = s
-                if isinstance(v, ast.BinOp) and isinstance(v.op, ast.MatMult):
-                    tgt = dotted(s.targets[0])
-                    L, R = dotted(v.left), dotted(v.right)
-                    if R == tgt:
-                        mat_side[as_start_val] = ("left", L)
-                    elif L == tgt:
-                        mat_side[as_start_val] = ("right", R)
-                    sites[("m", as_start_val)] = s
+        if isinstance(n, ast.ListComp) and isinstance(n.elt, ast.BinOp) \
+                and isinstance(n.elt.op, ast.Add):
+            pol = polarity(n)
+            if pol is None:
+                continue
+            L, R = dotted(n.elt.left), dotted(n.elt.right)
+            lv = dotted(n.generators[0].target)
+            if R == lv:
+                word_side[pol] = ("prepend", L)
+            elif L == lv:
+                word_side[pol] = ("append", R)
+            sites[("w", pol)] = stmt_of(n)
+        if isinstance(n, ast.BinOp) and isinstance(n.op, ast.MatMult):
+            pol = polarity(n)
+            if pol is None:
+                continue
+            L, R = dotted(n.left), dotted(n.right)
+            names = {L, R}
+            if "matrices" in names:
+                other = (names - {"matrices"}).pop() if len(names) == 2 else L
+                mat_side[pol] = ("left", other) if R == "matrices" \
+                    else ("right", other)
+                sites[("m", pol)] = stmt_of(n)
     if set(word_side) != {True, False} or set(mat_side) != {True, False}:
         raise AnalysisError(f"{FN}: as_start dispatch of the word/matrix "
                             f"channels not recognised (words={word_side}, "
